@@ -3,7 +3,7 @@ import copy
 import warnings
 
 from ..runner import TestSpec, Outcome
-from ..terms import Null, Leaf, Op, PathT, Prim, show, depth, leaves
+from ..terms import Null, Leaf, Op, PathT, Prim, Part, show, depth, leaves
 from .. import model, build, gen as G, spec as SP
 from ..snapshot import exact
 
@@ -120,7 +120,19 @@ PATHABLE = ["equal_to", "not_equal_to", "less_than", "greater_than", "in_", "not
 def small_path(r, mods=True, jsonable=False):
     parts = []
     for _ in range(r.between(1, 3)):
-        parts.append(G.blind_part(r, "typed", cond_depth=1, labels=False, meaningful=True, jsonable=jsonable) if r.pct() < 25 else Prim(r.choice(["a", "b", 0, 1, "x y"])))
+        c = r.pct()
+        if c < 25:
+            parts.append(G.blind_part(r, "typed", cond_depth=1, labels=False, meaningful=True, jsonable=jsonable))
+        elif c < 40:
+            # a container part that is equivalent to a primitive (the path stays non-concrete)
+            k = r.choice(["a", "b", 0, 1, "x y"])
+            if isinstance(k, str):
+                parts.append(Part("map", key=Leaf("key", None, "equal_to", kwargs={"value": k})))
+            else:
+                parts.append(Part("mol", key=Leaf("key", None, "equal_to", kwargs={"value": k}),
+                                  index=Leaf("index", None, "equal_to", kwargs={"value": k})))
+        else:
+            parts.append(Prim(r.choice(["a", "b", 0, 1, "x y"])))
     p = PathT(parts)
     if mods:
         conc = model.is_concrete(parts)
